@@ -10,6 +10,7 @@ for name in ("required", "wildtail", "anytype", "noinitwild", "scalarwild"):
     out.append(f"Definition u_{name} : universe := {info['universe']}.")
     out.append(f"Definition nodefault_{name} : list (cls * list str) := {info['nodefault']}.")
     out.append(f"Definition root_{name} : cls := {info['root']}.")
+    out.append(f"Definition g_{name} : generics := {info['generics']}.")
     for tag, xml in ip.WITNESS.get(name, []):
         model.ex.rec = ip.Recorder(model.ex)
         o = ip.record_doc(model, xml.encode(), (False, False, False), ip.XmlEventHandler)
